@@ -36,7 +36,7 @@ def significant(toks):
 
 EDITS = ['delete', 'duplicate', 'swap', 'replace_kind', 'literal_kind', 'indent_line',
          'indent_block', 'truncate', 'stray', 'keyword_swap', 'join_lines', 'replace_type',
-         'reuse_name', 'clash_name', 'doc_ref', 'huge_number', 'arglist']
+         'reuse_name', 'clash_name', 'doc_ref', 'huge_number', 'arglist', 'import_clash']
 KWNAMES = ['min_length', 'max_length', 'pattern', 'min_value', 'max_value', 'min_items', 'max_items',
            'format', 'data_type', 'key_data_type', 'value_data_type', 'nope']
 ARG_TYPES = ['String', 'Int32', 'UInt32', 'Int64', 'UInt64', 'Float32', 'Float64', 'List', 'Map', 'Timestamp',
@@ -137,6 +137,22 @@ def mutate(text, rnd, other_text=None):
         if nums:
             i = rnd.choice(nums)
         toks[i] = rnd.choice(HUGE)
+    elif e == 'import_clash':
+        # a definition (of any kind) named like a namespace this file imports, or an import of a
+        # name that is something else here (a built-in type, a definition of this file)
+        imps = [sig[a + 1] for a, j in enumerate(sig[:-1]) if toks[j] == 'import' and
+                (a == 0 or kind_of(toks[sig[a - 1]]) == 'nl') and kind_of(toks[sig[a + 1]]) == 'id']
+        names = [sig[a + 1] for a, j in enumerate(sig[:-1]) if toks[j] in DEF_KEYWORDS and
+                 (a == 0 or kind_of(toks[sig[a - 1]]) == 'nl') and kind_of(toks[sig[a + 1]]) == 'id']
+        if imps and names and rnd.random() < 0.7:
+            toks[rnd.choice(names)] = toks[rnd.choice(imps)]
+        elif imps:
+            toks[rnd.choice(imps)] = rnd.choice(TYPES + [toks[j] for j in names] or TYPES)
+        else:
+            ns = [sig[a + 1] for a, j in enumerate(sig[:-1]) if toks[j] == 'namespace']
+            extra = '\nimport %s\n' % rnd.choice(TYPES + [toks[j] for j in names] + [toks[j] for j in ns])
+            if ns:
+                toks.insert(ns[0] + 1, extra)
     elif e == 'arglist':
         # argument lists mixing positional and keyword arguments: optional attributes given by
         # position, repeated as keywords, surplus and unknown keywords, on built-in and user types
